@@ -57,7 +57,7 @@ func C20(e *Env) {
 	addr := p.HostPort()
 
 	// ---------------------------------------------------------------- make-iso
-	nTrees := e.Pick(30, 1500)
+	nTrees := e.Pick(30, 4000)
 	for i := 0; i < nTrees; i++ {
 		ps3 := i%2 == 1
 		name := fmt.Sprintf("t%03d", i)
@@ -122,7 +122,7 @@ func C20(e *Env) {
 	}
 
 	// ---------------------------------------------------------------- decrypt
-	nImg := e.Pick(60, 4000)
+	nImg := e.Pick(60, 12000)
 	for i := 0; i < nImg; i++ {
 		format := []string{"redump", "3k3y"}[i%2]
 		sectors := 16 + r.Intn(200)
